@@ -128,12 +128,12 @@ func (ex *Exec) globalLoc(g *ssa.Global) *Loc {
 
 func (ex *Exec) initPackage(pkg *ssa.Package) {
 	ex.pkgInit[pkg] = 1
+	ex.H.Prog.ensureBuilt(pkg)
 	initFn := pkg.Func("init")
 	if initFn == nil || initFn.Blocks == nil {
 		ex.pkgInit[pkg] = 2
 		return
 	}
-	ex.H.Prog.ensureBuilt(pkg)
 	ex.lenient++
 	savedSteps := ex.steps
 	if os.Getenv("SYMGO_DEBUG_INIT") != "" {
